@@ -1173,60 +1173,6 @@ Proof.
   intros n Hn. cbn in Hn. destruct Hn as [<-|[<-|[<-|[<-|[]]]]]; vm_compute; eexists; repeat split.
 Qed.
 
-(* ---- bounded exhaustive check of the liveness half of the C12 scenario oracle ---- *)
-Fixpoint all_lists {A} (alphabet : list A) (len : nat) : list (list A) :=
-  match len with
-  | O => [[]]
-  | S k => [] :: flat_map (fun l => map (fun a => a :: l) alphabet) (all_lists alphabet k)
-  end.
-
-Definition c12_alphabet : list cmd :=
-  [KConnect; KEnd 0; KEnd 1; KRelease 0; KRequest 0; KErrors 1].
-
-Definition c12_sweep (len : nat) : bool :=
-  forallb (fun n => forallb (fun full => forallb (fun cs =>
-     oracle_c12_acc n cs (scenario true full n cs)) (all_lists c12_alphabet len)) [true; false]) [1; 2; 3].
-
-Lemma all_lists_complete {A} (alphabet : list A) len : forall l,
-  length l <= len -> Forall (fun a => In a alphabet) l -> In l (all_lists alphabet len).
-Proof.
-  induction len as [|k IH]; intros l Hl Hin.
-  - destruct l; [left; reflexivity|cbn in Hl; lia].
-  - destruct l as [|a l]; [left; reflexivity|]. right. inversion Hin; subst.
-    apply in_flat_map. exists l. split; [apply IH; [cbn in Hl; lia|assumption]|].
-    apply (in_map (fun a0 => a0 :: l)). assumption.
-Qed.
-
-Lemma c12_sweep_4 : c12_sweep 4 = true.
-Proof. vm_compute. reflexivity. Qed.
-
-Lemma oracle_c12_acc_sound_upto_l n full cs :
-  In n [1; 2; 3] -> length cs <= 4 -> Forall (fun c => In c c12_alphabet) cs ->
-  oracle_c12_acc n cs (scenario true full n cs) = true.
-Proof.
-  intros Hn Hl Ha. pose proof c12_sweep_4 as H. unfold c12_sweep in H.
-  pose proof (proj1 (forallb_forall _ _) H n Hn) as H1. cbn beta in H1.
-  assert (Hf : In full [true; false]) by (destruct full; cbn; auto).
-  pose proof (proj1 (forallb_forall _ _) H1 full Hf) as H2. cbn beta in H2.
-  exact (proj1 (forallb_forall _ _) H2 cs (all_lists_complete _ _ _ Hl Ha)).
-Qed.
-
-(* ---- bounded exhaustive check of the connection-side C13 oracle ---- *)
-Definition c13_alphabet : list cmd :=
-  [KConnect; KRevoke; KRelease 0; KRelease 1; KRequest 0; KRequest 1; KEnd 0].
-
-Definition c13_conn_sweep (len : nat) : bool :=
-  forallb (fun n => forallb (fun cs =>
-     oracle_c13_conn cs (totals_cmds true true n (sim_init n) cs)) (all_lists c13_alphabet len)) [1; 2].
-
-Lemma c13_conn_sweep_4 : c13_conn_sweep 4 = true.
-Proof. vm_compute. reflexivity. Qed.
-
-Lemma oracle_c13_conn_sound_upto_l n cs :
-  In n [1; 2] -> length cs <= 4 -> Forall (fun c => In c c13_alphabet) cs ->
-  oracle_c13_conn cs (totals_cmds true true n (sim_init n) cs) = true.
-Proof.
-  intros Hn Hl Ha. pose proof c13_conn_sweep_4 as H. unfold c13_conn_sweep in H.
-  pose proof (proj1 (forallb_forall _ _) H n Hn) as H1. cbn beta in H1.
-  exact (proj1 (forallb_forall _ _) H1 cs (all_lists_complete _ _ _ Hl Ha)).
-Qed.
+(* The unbounded soundness of the scenario oracles (C12: the gauge returns to exactly n; C13: every
+   completed response after the revocation is followed by the connection being closed) is proved in
+   Proofs/AcceptP2.v. *)
